@@ -17,8 +17,8 @@ mod inspect;
 use anyhow::Result;
 use clap::{Parser, Subcommand};
 use ragc_core::{
-    contig_iterator::ContigIterator, Decompressor, DecompressorConfig, MultiFileIterator,
-    StreamingQueueCompressor, StreamingQueueConfig,
+    contig_iterator::ContigIterator, Decompressor, DecompressorConfig, GenomeWriter,
+    MultiFileIterator, StreamingQueueCompressor, StreamingQueueConfig,
 };
 use std::io::{self, Write};
 use std::path::{Path, PathBuf};
@@ -1139,30 +1139,26 @@ fn getset_command(
         anyhow::bail!("Must specify either sample names or --prefix");
     };
 
-    // If output file specified, extract to file
-    // Otherwise, extract to stdout (via temp file for simplicity)
+    // The output (file or stdout) is opened once and every requested sample is
+    // appended to it, so the result is the concatenation of the single-sample outputs.
     if let Some(output_path) = output {
-        // Extract each sample to the output file (append mode)
+        let mut writer = GenomeWriter::new(std::fs::File::create(&output_path)?);
         for sample_name in &samples_to_extract {
             if verbosity > 0 {
                 eprintln!("Extracting sample: {sample_name}");
             }
-            decompressor.write_sample_fasta(sample_name, &output_path)?;
+            decompressor.write_sample_to(sample_name, &mut writer)?;
         }
     } else {
-        // Extract to temp file then write to stdout
-        let temp_path =
-            std::env::temp_dir().join(format!("agc_extract_{}.fasta", std::process::id()));
+        let mut writer = GenomeWriter::new(io::stdout().lock());
         for sample_name in &samples_to_extract {
             if verbosity > 0 {
                 eprintln!("Extracting sample: {sample_name}");
             }
-            decompressor.write_sample_fasta(sample_name, &temp_path)?;
+            decompressor.write_sample_to(sample_name, &mut writer)?;
         }
-        // Write temp file to stdout
-        let contents = std::fs::read(&temp_path)?;
-        io::stdout().write_all(&contents)?;
-        std::fs::remove_file(&temp_path)?;
+        drop(writer);
+        io::stdout().flush()?;
     }
 
     decompressor.close()?;
